@@ -2,6 +2,7 @@ package iface
 
 import (
 	"fmt"
+	"runtime/debug"
 	"strconv"
 	"testing"
 	"unsafe"
@@ -57,6 +58,7 @@ func c15site(kind string, k int, static func(string)) string {
 
 // TestVerifC15Site is the entry point of the call-site lane.
 func TestVerifC15Site(t *testing.T) {
+	debug.SetGCPercent(-1) // the stub region is not Go code: no collection while a call may be inside it
 	out := vh.OpenOut()
 	defer out.Close()
 	for _, op := range vh.ReadOps() {
